@@ -25,6 +25,7 @@ RULE = RULE + " Rounds e-g: equal-ratio signatures, same-tick signatures of seve
 RULE = RULE + " Round h: all-silent families."
 RULE = RULE + " Round i: channel numbers on signature events."
 RULE = RULE + " Round j: an input repeated as a separate object with a longer closing rest."
+RULE = RULE + " Round k: same-tick signatures with equal numerator and different denominator; channel-aware merge-order model."
 ASSUMPTIONS = ["the velocity kept by a fused note is not part of the statement",
                "control/program changes are generated as noise but their fate is not part of the statement"]
 TIERS = {"quick": dict(shards=8, examples=1200, alt_ppqn=[480], alt_shards=2),
@@ -51,6 +52,8 @@ def _case(draw, size=1):
         t = draw(st.sampled_from(ts_ticks if kind == "ts" else ks_ticks))
         pool = draw(st.lists(st.tuples(st.integers(2, 5), st.sampled_from([4, 8])) if kind == "ts" else st.sampled_from(gens.KEYS),
                              min_size=2, max_size=2))
+        if kind == "ts" and draw(st.booleans()):
+            pool = [pool[0], (pool[0][0], 12 - pool[0][1])]          # same numerator, the other denominator (3/4 and 3/8)
         for i in range(k):
             metas[i] = [m for m in metas[i] if not (m[0] == kind and m[1] == t)]
             if draw(st.integers(0, 3)) > 0:
